@@ -26,6 +26,7 @@ type closedScn struct {
 	Callbacks int    `json:"callbacks"` // 0 none, 1 OnRequest, 2 OnConnect+OnRequest
 	Method    string `json:"method"`
 	Repeat    int    `json:"repeat"`
+	PriorWait bool   `json:"prior_wait,omitempty"` // a read timeout is set and one Reader call really waited before the close (no-callback connections)
 }
 
 var (
@@ -42,7 +43,7 @@ var (
 )
 
 func closedSpace() int {
-	return len(closedModes) * len(closedInputs) * 2 * 3 * len(closedMethods) * 2
+	return len(closedModes) * len(closedInputs) * 2 * 3 * len(closedMethods) * 2 * 2
 }
 
 func closedFromIndex(i int) closedScn {
@@ -58,6 +59,8 @@ func closedFromIndex(i int) closedScn {
 	s.Input = closedInputs[i%len(closedInputs)]
 	i /= len(closedInputs)
 	s.Mode = closedModes[i%len(closedModes)]
+	i /= len(closedModes)
+	s.PriorWait = i%2 == 1
 	return s
 }
 
@@ -110,6 +113,19 @@ func runClosed(t *rapid.T, s closedScn, replay []vs.Step) *closedOutcome {
 			c.init(&netFD{fd: r, network: "unix", remoteAddr: &UnixAddr{}, localAddr: &UnixAddr{}}, opts)
 			c.onConnect()
 		}
+		if s.PriorWait && s.Callbacks == 0 {
+			// a timed read that really waits (the byte arrives while it is parked), long before the close
+			c.SetReadTimeout(time.Hour)
+			me := w.s.Self()
+			w.s.Go("feeder", false, func() {
+				vs.WaitFor(-73, func() bool { return me.Blocked() })
+				syscall.Write(wfd, []byte{0x7f})
+			})
+			if p, err := c.Reader().Next(1); err != nil || len(p) != 1 {
+				o.setupBad = fmt.Sprintf("the prior timed read failed: %v", err)
+			}
+			c.Reader().Release()
+		}
 		if s.Output {
 			if p, err := c.Writer().Malloc(10); err == nil {
 				copy(p, "unflushed!")
@@ -144,6 +160,9 @@ func runClosed(t *rapid.T, s closedScn, replay []vs.Step) *closedOutcome {
 			o.parked = append(o.parked, a.Name)
 		}
 		o.setupBad = fmt.Sprintf("the close itself did not complete (livelock=%v parked=%v)", livelock, o.parked)
+		return o
+	}
+	if o.setupBad != "" {
 		return o
 	}
 	if c.IsActive() {
@@ -315,7 +334,7 @@ func isWriterMethod(m string) bool {
 
 func judgeClosed(s closedScn, o *closedOutcome) (sig, msg string) {
 	w := o.w
-	desc := fmt.Sprintf("%s after close mode=%s input=%d(left %d) output=%v callbacks=%d", s.Method, s.Mode, s.Input, o.leftover, s.Output, s.Callbacks)
+	desc := fmt.Sprintf("%s after close mode=%s input=%d(left %d) output=%v callbacks=%d priorTimedWait=%v", s.Method, s.Mode, s.Input, o.leftover, s.Output, s.Callbacks, s.PriorWait)
 	if len(w.s.Crashes) > 0 {
 		return "process-crash", desc + ": a panic escaped a goroutine netpoll starts itself: " + firstLine(w.s.Crashes[0])
 	}
@@ -439,6 +458,7 @@ func TestVerifC12(t *testing.T) {
 			Callbacks: rapid.IntRange(0, 2).Draw(t, "callbacks"),
 			Method:    rapid.SampledFrom(closedMethods).Draw(t, "method"),
 			Repeat:    rapid.IntRange(1, 2).Draw(t, "repeat"),
+			PriorWait: rapid.Bool().Draw(t, "priorwait"),
 		}
 		if sig, msg := closedRun("C12", s, t, st, "rapid:C12"); sig != "" {
 			t.Fatalf("C12 violated [%s]: %s\nscenario: %+v", sig, msg, s)
